@@ -61,3 +61,54 @@ Example fill_check_is_sensitive :
   | _, _ => true
   end = false.
 Proof. vm_compute. reflexivity. Qed.
+
+(* ---------------------------------------------------------------- the shape test, every dimension *)
+Require Import Lia.
+
+(* no bound: for every value type, every type code, all dimensions and all arrays *)
+Lemma apply_refuses_other_shapes_lemma (O : Ops) (ty : caltype) (mr mc : nat) (e m : list O) :
+  mr <> mc -> Nat.max mr mc <> 2 -> apply_fill O ty mr mc e m = Refused.
+Proof.
+  intros H1 H2. unfold apply_fill.
+  destruct (Nat.eqb_spec mr mc) as [E|_]; [contradiction|].
+  destruct (Nat.eqb_spec (Nat.max mr mc) 2) as [E|_]; [contradiction|].
+  reflexivity.
+Qed.
+
+Ltac fill_cases :=
+  unfold fill_t8, fill_u8, fill_t16, fill_u16, fill_ue14, fill_e12; cbv zeta;
+  repeat match goal with |- context [if ?b then _ else _] => destruct b end;
+  try discriminate.
+
+Lemma fill_not_refused (O : Ops) (ty : caltype) (mr mc : nat) (e m : list O) :
+  fill_t8 O ty mr mc e m <> Refused /\ fill_u8 O ty mr mc e m <> Refused /\
+  fill_t16 O ty mr mc e m <> Refused /\ fill_u16 O ty mr mc e m <> Refused /\
+  fill_ue14 O ty mr mc e m <> Refused /\ fill_e12 O ty mr mc e m <> Refused.
+Proof. repeat split; fill_cases. Qed.
+
+Lemma apply_accepts_shape_lemma (O : Ops) (ty : caltype) (mr mc : nat) (e m : list O) :
+  mr = mc \/ Nat.max mr mc = 2 -> apply_fill O ty mr mc e m <> Refused.
+Proof.
+  intros H. unfold apply_fill.
+  assert (E : andb (negb (Nat.eqb mr mc)) (negb (Nat.eqb (Nat.max mr mc) 2)) = false).
+  { destruct (Nat.eqb_spec mr mc); destruct (Nat.eqb_spec (Nat.max mr mc) 2); try reflexivity; lia. }
+  rewrite E.
+  destruct (fill_not_refused O ty mr mc e m) as (H1 & H2 & H3 & H4 & H5 & H6).
+  destruct ty; assumption.
+Qed.
+
+(* for the dimensions the type allows (rows <= columns for T, rows >= columns for U and E) the
+   assert(m_rows == m_columns) of the fill functions cannot fail *)
+Lemma apply_assert_unreachable_lemma (O : Ops) (ty : caltype) (mr mc : nat) (e m : list O) :
+  1 <= mr -> 1 <= mc -> (if VNACAL_IS_T ty then mr <= mc else mc <= mr) ->
+  apply_fill O ty mr mc e m <> FAssert.
+Proof.
+  intros Hr Hc Hd. unfold apply_fill.
+  destruct (Nat.eqb_spec mr mc) as [E|NE]; cbn [negb andb].
+  - subst mc. unfold fill_t8, fill_u8, fill_t16, fill_u16, fill_ue14, fill_e12.
+    rewrite Nat.eqb_refl. cbn [negb]. cbv zeta.
+    destruct ty; repeat match goal with |- context [if ?b then _ else _] => destruct b end; discriminate.
+  - destruct (Nat.eqb_spec (Nat.max mr mc) 2) as [E2|NE2]; cbn [negb]; [|discriminate].
+    assert (Hs : (mr = 1 /\ mc = 2) \/ (mr = 2 /\ mc = 1)) by lia.
+    destruct Hs as [[-> ->]|[-> ->]]; destruct ty; cbn in Hd; try lia; cbv; discriminate.
+Qed.
